@@ -52,21 +52,51 @@ Definition pad_elems (es : list value) : list value :=
 Definition hd_word (d : list Z) : Z := match d with x :: _ => x | [] => 0 end.
 Definition hd_ptr (p : list value) : value := match p with x :: _ => x | [] => VNull end.
 
-(* the canonical representative of a value *)
+(* the canonical representative of a value.  Lists: every element is normalised as a struct
+   (its struct view truncated), then
+     struct list     all elements padded to the largest truncated size;
+     pointer list    the element's sole pointer (null if truncated away);
+     primitive list  the element's sole data word (0 if truncated away);
+     void list       nothing. *)
 Fixpoint norm (v : value) : value :=
   match v with
   | VNull | VCap _ | VBits _ => v
   | VStruct d ps => VStruct (strip0 d) (stripN (map norm ps))
   | VList k es =>
+    let ns := map norm es in
     match k with
-    | LComp => VList LComp (pad_elems (map norm es))
-    | LPtr => VList LPtr (map (fun e => VStruct [] [match e with
-                                                    | VStruct _ (p :: _) => norm p
-                                                    | _ => VNull
-                                                    end]) es)
-    | LVoid => VList LVoid (map (fun _ => VStruct [] []) es)
-    | _ => VList k (map (fun e => VStruct [hd_word (sdata e)] []) es)
+    | LComp => VList LComp (pad_elems ns)
+    | LPtr => VList LPtr (map (fun n => VStruct [] [hd_ptr (sptrs n)]) ns)
+    | LVoid => VList LVoid (map (fun _ => VStruct [] []) ns)
+    | _ => VList k (map (fun n => VStruct [hd_word (sdata n)] []) ns)
     end
+  end.
+
+(* no capability anywhere *)
+Fixpoint nocap (v : value) : bool :=
+  match v with
+  | VCap _ => false
+  | VStruct _ ps => forallb nocap ps
+  | VList _ es => forallb nocap es
+  | _ => true
+  end.
+
+(* well-formed values: list elements have the struct view of their kind *)
+Fixpoint wfv (v : value) : bool :=
+  match v with
+  | VStruct _ ps => forallb wfv ps
+  | VList k es =>
+    forallb (fun e => match e with
+                      | VStruct d ps =>
+                        match k with
+                        | LComp => forallb wfv ps
+                        | LPtr => match d, ps with [], [p] => wfv p | _, _ => false end
+                        | LVoid => match d, ps with [], [] => true | _, _ => false end
+                        | _ => match d, ps with [_], [] => true | _, _ => false end
+                        end
+                      | _ => false
+                      end) es
+  | _ => true
   end.
 
 (* ------------------------------------------------------------------ stage 2: layout *)
